@@ -49,7 +49,8 @@ JUNK_LINES = [b'\xc2\xa0', b'\xe2\x80\xa8', b'\xc2\x85', b'\x1c', b'\x1f',
               b'\xa0', b'\x85', b'.change:', b'#.Change:',
               b'#.chan\xffge:', b'#..\xfefile:', b'#.\xc3\xa9change:',
               b'#..fi\xc2\xadle:', b'#...me\xe2\x80\x8bta: length=2',
-              b'#.change\xef\xbb\xbf:']
+              b'#.change\xef\xbb\xbf:', b'\xef\xbb\xbf#.change:',
+              b'\xef\xbb\xbf#..file:', b'\xff\xfe#.change:']
 
 
 def render(ids, crlf=False, style=None, junk=None):
